@@ -52,9 +52,17 @@ type fanOp struct {
 	Index     int    `json:"index"`
 	Pct       int    `json:"pct"`
 }
+// one constructor option of the configuration, in the order it is handed to NewModel
+type fanOpt struct {
+	Kind    string      `json:"kind"` // presets | init | clock
+	Presets []absPreset `json:"presets"`
+	Init    absFan      `json:"init"`
+	Via     string      `json:"via"` // init: WithInitialFanSpeed ("model") or WithFanSpeedOption(resource.WithInitialValue) ("resource")
+}
 type fanWalk struct {
 	N   int `json:"n"`
 	Cfg struct {
+		Opts    []fanOpt    `json:"opts"`
 		Custom  bool        `json:"custom"`
 		Presets []absPreset `json:"presets"`
 		HasInit bool        `json:"hasInit"`
@@ -70,6 +78,8 @@ type fanObs struct {
 	Custom  bool        `json:"custom"`
 	HasInit bool        `json:"hasInit"`
 	Presets []absPreset `json:"presets"`
+	Opts    []fanOpt    `json:"opts"` // New: the option sequence
+	Seed    absFan      `json:"seed"` // New: the seed value of PullFanSpeed
 	Req     fanReq      `json:"req"`
 	Pre     absFan      `json:"pre"`
 	Post    absFan      `json:"post"`
@@ -84,21 +94,41 @@ func runFanSpeed(raw json.RawMessage, out *hx.Out) {
 	w := decode[fanWalk](raw)
 	var m *fanspeedpb.Model
 	o := fanObs{Model: "fanspeed", Walk: w.N, Op: "New", Custom: w.Cfg.Custom, HasInit: w.Cfg.HasInit,
-		Presets: w.Cfg.Presets, Pre: w.Cfg.Init, Err: "OK"}
+		Presets: w.Cfg.Presets, Opts: w.Cfg.Opts, Pre: w.Cfg.Init, Err: "OK"}
+	for i := range o.Opts {
+		if o.Opts[i].Presets == nil {
+			o.Opts[i].Presets = []absPreset{}
+		}
+	}
 	o.Panic = hx.Catch(func() {
 		var opts []resource.Option
-		if w.Cfg.Custom {
-			ps := make([]fanspeedpb.Preset, len(w.Cfg.Presets))
-			for i, p := range w.Cfg.Presets {
-				ps[i] = fanspeedpb.Preset{Name: p.Name, Percentage: float32(p.Pct)}
+		for _, co := range w.Cfg.Opts {
+			switch co.Kind {
+			case "presets":
+				ps := make([]fanspeedpb.Preset, len(co.Presets))
+				for i, p := range co.Presets {
+					ps[i] = fanspeedpb.Preset{Name: p.Name, Percentage: float32(p.Pct)}
+				}
+				opts = append(opts, fanspeedpb.WithPresets(ps...))
+			case "init":
+				if co.Via == "resource" {
+					opts = append(opts, fanspeedpb.WithFanSpeedOption(resource.WithInitialValue(concFan(co.Init))))
+				} else {
+					opts = append(opts, fanspeedpb.WithInitialFanSpeed(concFan(co.Init)))
+				}
+			case "clock":
+				opts = append(opts, resource.WithClock(scriptedClock()))
+			default:
+				hx.Fatal("fanspeed: unknown option kind %q", co.Kind)
 			}
-			opts = append(opts, fanspeedpb.WithPresets(ps...))
-		}
-		if w.Cfg.HasInit {
-			opts = append(opts, fanspeedpb.WithInitialFanSpeed(concFan(w.Cfg.Init)))
 		}
 		m = fanspeedpb.NewModel(opts...)
 		o.Post = absFanOf(m.FanSpeed())
+		seed, _ := pullSeed(func(ctx context.Context) <-chan fanspeedpb.FanSpeedChange { return m.PullFanSpeed(ctx) }, 1)
+		o.Seed = absFan{Preset: "<no seed>", Index: -7777, Pct: -7777}
+		if len(seed) == 1 {
+			o.Seed = absFanOf(seed[0].Value)
+		}
 	})
 	o.Ret = o.Post
 	out.Write(o)
@@ -108,7 +138,7 @@ func runFanSpeed(raw json.RawMessage, out *hx.Out) {
 	srv := fanspeedpb.NewModelServer(m)
 	for i, op := range w.Ops {
 		o := fanObs{Model: "fanspeed", Walk: w.N, Step: i + 1, Op: op.Op, Custom: w.Cfg.Custom, HasInit: w.Cfg.HasInit,
-			Presets: w.Cfg.Presets, Err: "OK"}
+			Presets: w.Cfg.Presets, Opts: []fanOpt{}, Err: "OK"}
 		cur := m.FanSpeed()
 		o.Pre = absFanOf(cur)
 		msg := &traits.FanSpeed{}
